@@ -1249,6 +1249,7 @@ func (fr *Frame) lookup(x *ssa.Lookup) {
 		m := fr.val(x.X).T
 		k := fr.val(x.Index).T
 		has := ex.mapHas(fr.curMem, t, m, k)
+		ex.assume(implies(fmt.Sprintf("(= %s 0)", m), not(has)), fr.curReach) // a nil map has no keys
 		v := ite(has, ex.mapVal(fr.curMem, t, m, k), ex.D.zero(t.Elem()))
 		vs := ex.D.sortOf(t.Elem())
 		if x.CommaOk {
